@@ -15,7 +15,7 @@ use crate::rng::TestRng;
 use crate::{scn, Scenario};
 
 pub fn scenarios() -> Vec<Scenario> {
-    vec![scn!(scenario_honest_dkg)]
+    vec![scn!(scenario_honest_dkg, 3), crate::wrap::scn_dkg(1)]
 }
 
 /// Consistency of one participant's key package with a public key package (shared with C09/C10/C11).
